@@ -247,14 +247,33 @@ type timeoutNowRec struct {
 }
 
 func (c *cluster) onTimeoutNowWritten(src *simNode, w *wireMsg) {
-	if src == nil || src.r == nil {
+	if src == nil || src.r == nil || c.blackbox {
 		return
 	}
 	r := src.r
+	if r.state != Leader || r.term != w.req.getTerm() {
+		// written by the untracked RPC goroutine of a leadership that has ended
+		// meanwhile: not a designation by "the old leader" in the property's sense
+		c.stats.class("stale-timeoutnow")
+		return
+	}
+	// transfer in progress: the leader accepts no new entries, its last index is stable
 	rec := timeoutNowRec{from: src.id, to: idOfHost(w.conn.to), lastIndex: r.lastLogIndex, lastTerm: r.lastLogTerm, cfg: r.configs.Latest.clone(), step: c.stepNo}
-	c.evMu.Lock()
-	c.timeoutNows = append(c.timeoutNows, rec)
-	c.evMu.Unlock()
+	nd, ok := rec.cfg.Nodes[rec.to]
+	if !ok || !nd.Voter {
+		c.fail("transfer", "timeoutnow-to-nonvoter", "leader %d sent timeout-now to node %d which is not a voter in its configuration %v", rec.from, rec.to, rec.cfg)
+		return
+	}
+	// the target's log at this very instant (word-sized reads of another node's
+	// fields; this oracle is off in the race tier)
+	if t := c.up(rec.to); t != nil {
+		tl, tt := t.r.lastLogIndex, t.r.lastLogTerm
+		if tl < rec.lastIndex && tl >= t.r.log.PrevIndex() {
+			c.fail("transfer", "timeoutnow-to-lagging", "leader %d (last index %d) sent timeout-now to node %d whose log ends at %d", rec.from, rec.lastIndex, rec.to, tl)
+		} else if tl == rec.lastIndex && tt != rec.lastTerm {
+			c.fail("transfer", "timeoutnow-to-diverged", "leader %d sent timeout-now to node %d whose last entry %d has term %d, leader's has term %d", rec.from, rec.to, tl, tt, rec.lastTerm)
+		}
+	}
 }
 
 // diskEntryTerm reads, without opening the log, the term of the entry at index
